@@ -116,17 +116,20 @@ func (cs *c05Session) refFor(rc *RunCtx, cfg DataCfg, from string) bool {
 
 // authentic reports whether every record of the datagram claims protection and
 // authenticates under the reference keys (and returns the decoded payloads).
-func (cs *c05Session) classify(data []byte, cidLen int, fromClient bool) (claimsProtection, authentic bool) {
+// classify judges a datagram record by record: authentic = every record opens under the reference
+// keys, anyAuthentic = at least one does (a genuine record followed by junk that happens to frame
+// as a second record is still entitled to delivery: authenticity is a property of records).
+func (cs *c05Session) classify(data []byte, cidLen int, fromClient bool) (claimsProtection, authentic, anyAuthentic bool) {
 	recs, err := ParseDatagram(data, cidLen)
 	if err != nil || len(recs) == 0 {
-		return false, false
+		return false, false, false
 	}
 	claimsProtection = true
 	authentic = true
 	for _, r := range recs {
 		if r.Unified {
 			if cs.dec13 == nil {
-				return true, false
+				return true, false, false
 			}
 			// a fresh decoder per probe: classification must not advance the expected sequence number
 			d := NewDecoder13(cs.dec13.Suite, cs.dec13.Secrets)
@@ -135,6 +138,8 @@ func (cs *c05Session) classify(data []byte, cidLen int, fromClient bool) (claims
 			}
 			if _, _, _, _, oerr := d.Open(r); oerr != nil {
 				authentic = false
+			} else {
+				anyAuthentic = true
 			}
 
 			continue
@@ -151,10 +156,12 @@ func (cs *c05Session) classify(data []byte, cidLen int, fromClient bool) (claims
 		}
 		if _, _, oerr := cs.ref12.Open(fromClient, r); oerr != nil {
 			authentic = false
+		} else {
+			anyAuthentic = true
 		}
 	}
 
-	return claimsProtection, authentic
+	return claimsProtection, authentic, anyAuthentic
 }
 
 func mutateRecord(r *rand.Rand, genuine []byte, cidLen int, other []byte) ([]byte, string) {
@@ -384,7 +391,7 @@ func c05Run(rc *RunCtx, params any) {
 		return true
 	}
 	inject := func(data []byte, kind string) bool {
-		claims, auth := A.classify(data, cidLen, from == "c")
+		claims, auth, anyAuth := A.classify(data, cidLen, from == "c")
 		emBefore := toSock.EmitCount()
 		gotBefore := len(rd.Got)
 		errBefore := len(rd.Errs)
@@ -403,7 +410,10 @@ func c05Run(rc *RunCtx, params any) {
 
 				return false
 			}
-			if len(rd.Got) != gotBefore {
+			if anyAuth {
+				s.Probe("authentic-record-beside-junk")
+			}
+			if len(rd.Got) != gotBefore && !anyAuth {
 				rc.Violate("forgery-delivered:"+kind, "a %s mutant that does not authenticate under the reference keys was delivered by Read: %s", kind, preview(rd.Got[len(rd.Got)-1]))
 
 				return false
